@@ -38,6 +38,10 @@ ORACLE_GROUPS = {
     'C10': [('src/algorithms/components/', 'components_oracle'), ('src/graph/query.rs', 'components_oracle')],
     'C09': [('src/graph/', 'counts_oracle')],
     'C12': [('src/algorithms/community/partitions.rs', 'partition_oracle')],
+    'C04': [('src/algorithms/shortest_path/', 'sp_oracle')],
+    'C08': [('src/algorithms/shortest_path/', 'sp_oracle')],
+    'C06': [('src/algorithms/centrality/closeness.rs', 'closeness_oracle')],
+    'C15': [('src/graph/convert.rs', 'derived_oracle'), ('src/graph/subgraph.rs', 'derived_oracle')],
 }
 
 
